@@ -10,7 +10,7 @@ import common as C
 
 # tag -> owning property (core:* are resolved by context, see owner_of)
 TAG_OWNER = {
-    "route": "C01", "alloc": "C05", "time": "C12", "quiet:more": "C13", "wire:abandon": "C13", "wire": "C02",
+    "route": "C01", "alloc": "C05", "time": "C12", "quiet:more": "C13", "wire:abandon": "C13", "wire": ("C02", "C05"), "wire:id-range": "C05",
     "wire:missing:abandon": "C13", "quiet:pending": ("C13", "C12"), "wire:missing": "C02", "effect:lost-route": "C01",
     "effect:abandon": ("C13", "C01"), "effect:scrub": ("C12", "C13"), "stream": "C10", "close": "C04", "closed": "C04",
     "inv:Routing": ("C01", "C12"), "inv:NoLeak": "C13", "inv:UniqueIds": "C05", "inv:WireUnique": "C05", "inv:IdRange": "C05", "inv:Protected": "C05", "inv:RoutedProtected": "C05",
@@ -100,6 +100,20 @@ def _owner_of(tag, events, idx):
                         return (base, "C12") if events[j].get("t", 0) != 0 else base
                 j -= 1
             return base or "C04"
+        if what == "DrvOp":
+            # the driver was handed a request under an ID the allocator never issued in this scenario (or issued to another
+            # operation): what goes on the wire is not what was reserved - C05's, whatever else it breaks
+            issued = set()
+            j = idx - 2
+            last_alloc = None
+            while j >= 0 and events[j].get("ev") != "Reset":
+                if events[j].get("ev") == "IdAlloc":
+                    issued.add(events[j].get("id"))
+                    if last_alloc is None:
+                        last_alloc = events[j].get("id")
+                j -= 1
+            if ev.get("id") not in issued:
+                return ("C05", "C01")
         if what in ("Hang", "DrvExit"):
             if what == "DrvExit":
                 # the driver ended although the transport was never touched (no fault, no Unbind, handles alive): whatever made
